@@ -50,7 +50,8 @@ def enum_configs(tier):
 
 
 def gen_trace(rng, bad_p=0.0):
-    return {"m": rng.choice(MODULES), "q": rng.choice(QUALS), "args": rng.randrange(5), "ret": rng.randrange(4), "yld": rng.randrange(3),
+    # rarely a function without a module (defined by exec() in a bare namespace: __module__ is None -> a NULL in the module column)
+    return {"m": rng.choice(MODULES) if rng.random() > 0.03 else None, "q": rng.choice(QUALS), "args": rng.randrange(5), "ret": rng.randrange(4), "yld": rng.randrange(3),
             "bad": rng.random() < bad_p}
 
 
@@ -257,9 +258,13 @@ class World:
 
     def check_modules(self, mods, where):
         self.evaluated += 1
-        want = {r[0] for r in self.model}
-        if set(mods) != want or len(mods) != len(set(mods)):
-            self.viol("C09.modules", None, {"where": where, "got": sorted(mods), "want": sorted(want)}, "list_modules %r, expected %r" % (sorted(mods), sorted(want)))
+        # whether the module-less (NULL) rows show up in the listing is not judged: None is not a module
+        want = {r[0] for r in self.model} - {None}
+        named = [m for m in mods if m is not None]
+        if set(named) != want or len(named) != len(set(named)):
+            self.viol("C09.modules", None, {"where": where, "got": sorted(named), "want": sorted(want)}, "list_modules %r, expected %r" % (sorted(named), sorted(want)))
+        if None in {r[0] for r in self.model}:
+            self.probes["module listing with module-less (NULL) rows in the table"] += 1
 
     # ---- operations
     def side_op(self, d, parked_actor_idx, where):
@@ -431,7 +436,7 @@ class World:
                 self.check_filter(op, r["rows"], where)
         elif k == "list_modules":
             r = self.actor(ai).call({"op": "list_modules"})
-            self.log.append(["list_modules", ai, sorted(r.get("modules", []))])
+            self.log.append(["list_modules", ai, sorted(r.get("modules", []), key=repr)])
             if "err" in r:
                 self.viol("C09.modules", None, {"where": where}, "list_modules raised: " + r["err"][:300])
             else:
@@ -480,7 +485,7 @@ class World:
             else:
                 self.model.update(tuple(x) for x in r["expected"])
             self.check_raw("final", tolerate_locked=False)
-            for m in sorted({r[0] for r in self.model} | {"m", "M"}):
+            for m in sorted(({r[0] for r in self.model} - {None}) | {"m", "M"}):
                 for p in (None, "", "my_func", "my", "Foo", "foo", "a%", "a_", "a"):
                     rr = fresh.call({"op": "filter", "m": m, "p": p, "n": 1000000})
                     if "err" in rr:
